@@ -9,6 +9,10 @@ E1 (bounded exhaustive inputs, all against mc/ref_c13.py):
             (list, tuple, generator, iter(list), set, frozenset, Basis), 6 functions; Av methods.
   pairs     all bases of <= 2 permutations of length <= 5 (thorough: 6) as list and iterator.
   subsets   every subset (any size) of a small pool, in both orders.
+  related   bases {p, r(p)} + completion for every p of length <= 6 (thorough 7), every related
+            element r(p) (7 symmetries, one-point deletions) and every class X, the completion chosen
+            by the reference so that the verdict hinges on the pair: catches a per-call shortcut
+            that derives the answer for one element from a related element of the same call.
   enum      implementation verdicts against the real counting sequence (reference levels to N).
   symmetry  the eight symmetries (reference point maps) on the implementation's verdict table.
   cli       permtools `poly` / `insenc` through the real argument parser (stdout captured), and a
@@ -294,6 +298,79 @@ def shard_subsets(shard):
                 check_call(part, "subsets", fn, kind, seq, v)
                 n += 1
         part.add(n, 1 if (len(S) >= 4 and hinge(S, v)) else 0)
+    return part
+
+
+# --------------------------------------------------------------------------------------------
+# E1: related elements in one call  ({p, r(p)} + completion)
+# --------------------------------------------------------------------------------------------
+
+RELKIND_FN = {"poly": ("poly", "nonpoly"), "right": ("right",), "top": ("top",)}
+AXIS_SWAP = {"right": "top", "top": "right", "poly": "poly", "finite": "finite", "insenc": "insenc"}
+
+
+def related_cases(p):
+    """Every basis of the family for one permutation p: (info, sequence, [(fn, container)]).
+    For every related element q of p (seven symmetries, one-point deletions), every universe
+    (ten polynomial classes, four rightmost, four topmost) and every class X of it: the pair plus
+    the minimal completion and plus the whole probe context of X (both avoid X and meet everything
+    the pair does not), in six arrangements; additionally the images of the first arrangement
+    under the seven symmetries of the whole basis.  Finiteness: the pair plus one monotone
+    permutation of the other direction."""
+    for rel, q in F.related(p):
+        T = F.types_cached(p) | F.types_cached(q)
+        for kind in ("poly", "right", "top"):
+            for X in CONTEXTS[kind]:
+                comps = [("min", F.completion(kind, X, T))]
+                if list(CONTEXTS[kind][X]) != list(comps[0][1]):
+                    comps.append(("full", list(CONTEXTS[kind][X])))
+                for cname, C in comps:
+                    for ai, seq in enumerate(F.arrangements(p, q, C)):
+                        calls = [(fn, "list" if (ai + fi) % 2 == 0 else "gen")
+                                 for fi, fn in enumerate(RELKIND_FN[kind])]
+                        if kind != "poly":
+                            calls.append(("insenc", "list"))
+                        if ai == 0 and all(len(x) for x in seq):
+                            calls.append(({"poly": "av_poly"}.get(kind, "av_insenc"), "list"))
+                        yield {"p": p, "rel": rel, "kind": kind, "class": X, "completion": cname,
+                               "arrangement": ai}, seq, calls
+                    base = F.arrangements(p, q, C)[0]
+                    for s in R.SYMS:
+                        if s == "id":
+                            continue
+                        seq = [R.apply_sym(s, x) for x in base]
+                        fn = RELKIND_FN[kind][0]
+                        if s not in AXIS_KEEPING:
+                            fn = AXIS_SWAP[fn]
+                        yield {"p": p, "rel": rel, "kind": kind, "class": X, "completion": cname,
+                               "arrangement": 0, "image_under": s}, seq, [(fn, "list")]
+        for mono in ((0, 1, 2), (2, 1, 0), (0, 1), (1, 0)):
+            for ai, seq in enumerate(F.arrangements(p, q, [mono])):
+                yield {"p": p, "rel": rel, "kind": "finite", "class": "other monotone than %r" % (mono,),
+                       "completion": "min", "arrangement": ai}, seq, [("finite", "list" if ai % 2 else "iter")]
+
+
+def check_related(part, p):
+    n = 0
+    for info, seq, calls in related_cases(p):
+        v = F.verdicts(seq)
+        for fn, kind in calls:
+            check_call(part, "related", fn, kind, seq, v, extra={"family": info})
+            n += 1
+    nrel = len(F.related(p))
+    part.add(n, nrel * 18 if len(p) >= 3 else 0)
+
+
+def shard_related(shard):
+    n, lo, hi = shard
+    part = Partial()
+    for p in R.perms(n)[lo:hi]:
+        check_related(part, p)
+    if hi > lo and lo == 0 and n >= 4:
+        p = R.perms(n)[hi - 1]
+        info, seq, calls = next(iter(related_cases(p)))
+        part.sample({"sub": "related", "family": info, "sequence": seq,
+                     "reference (finite, poly, right, top)": F.verdicts(seq)}, cap=1)
     return part
 
 
@@ -799,7 +876,8 @@ def run(ctx, only=None):
                 "|permutation| >= 3 whose context makes the verdict equal membership of that one "
                 "permutation; enum: bases whose finite verdict was confronted with at least one "
                 "non-empty and one empty level, or whose non-polynomial verdict was confronted with a "
-                "proper class; symmetry: bases moved by some symmetry; histories: BFS states")
+                "proper class; symmetry: bases moved by some symmetry; related: distinct (p, related element, "
+                "class) triples with |p| >= 3; histories: BFS states")
     ctx.assumptions = [
         "structure theorems as stated in mc/ref_c13.py (Erdos-Szekeres; ten minimal non-polynomial "
         "classes, Kaiser-Klazar/Huczynska-Vatter; Vatter's four classes for the insertion encoding)",
@@ -851,6 +929,24 @@ def run(ctx, only=None):
         ctx.pmap(shard_subsets, shards)
         ctx.bounds["subsets"] = "every subset (all sizes) of a pool of %d permutations, list + reversed generator" % len(SUBPOOL)
         ctx.section("subsets", evaluations=ctx.evals - e0)
+    if want("related"):
+        e0 = ctx.evals
+        L = 6 if quick else 7
+        per = {1: 1, 2: 2, 3: 3, 4: 4, 5: 4, 6: 8, 7: 24}
+        shards = [(n, lo, hi) for n in range(1, L + 1) for lo, hi in chunk(_fact(n), per[n])]
+        ctx.pmap(shard_related, shards)
+        ctx.bounds["related"] = {
+            "p": "every permutation of length 1..%d" % L,
+            "related element": "each of the 7 non-identity symmetries of p (inverse first) and each "
+                               "distinct one-point deletion of p, when different from p",
+            "classes": "each of the 10 polynomial, 4 rightmost and 4 topmost classes X; finiteness with "
+                       "each of 012, 210, 01, 10 as the only other element",
+            "completion": "minimal completion by the reference type sets (length <= 4, avoids X, meets what "
+                          "the pair does not) and the whole probe context of X",
+            "arrangements": "p q C, q p C, p C q, q C p, C p q, C q p; list/generator; is_polynomial, "
+                            "is_non_polynomial, rightmost, maximum, is_insertion_encodable, Av methods; "
+                            "plus the 7 symmetric images of the whole basis"}
+        ctx.section("related", evaluations=ctx.evals - e0)
     if want("enum"):
         e0 = ctx.evals
         N = 8 if quick else 9
@@ -934,7 +1030,7 @@ def replay(ctx, rec):
     if sub == "types":
         CONTEXTS = F.probe_contexts()
         check_type_case(ctx, tuple(case["perm"]), case["kind"], case["class"], case["pos"])
-    elif sub in ("bases", "pairs", "subsets", "av"):
+    elif sub in ("bases", "pairs", "subsets", "av", "related"):
         seq = _tt(case["seq"])
         check_call(ctx, sub, case["fn"], case["container"], seq, F.verdicts(seq))
     elif sub == "enum":
